@@ -55,12 +55,27 @@ def table_cases(ctx):
                     if c['res']['k'] == 'num' and c['res']['v'] != '0':
                         ctx.nontrivial.add(tuple(t))
                 else:
+                    first = None
                     try:
-                        c['res'] = {'k': 'matrix', 'm': cmat(pe.dirac.Grid_gamma(c['tag']))}
+                        first = pe.dirac.Grid_gamma(c['tag'])
+                        c['res'] = {'k': 'matrix', 'm': cmat(first)}
                     except Exception as e:  # noqa: BLE001
                         c['res'] = {'k': 'exc', 't': type(e).__name__}
                     c['gamma'], c['gamma5'] = g, g5
                     ctx.nontrivial.add(c['tag'])
+                    if first is not None:
+                        # the table is a table: asking again gives the same matrix, and the one handed out before is not touched
+                        c2 = dict(c)
+                        c2['id'] = c['id'] + '-again'
+                        try:
+                            c2['res'] = {'k': 'matrix', 'm': cmat(pe.dirac.Grid_gamma(c['tag']))}
+                        except Exception as e:  # noqa: BLE001
+                            c2['res'] = {'k': 'exc', 't': type(e).__name__}
+                        c3 = dict(c)
+                        c3['id'] = c['id'] + '-first-after'
+                        c3['res'] = {'k': 'matrix', 'm': cmat(first)}
+                        cases.append(c2)
+                        cases.append(c3)
                 cases.append(c)
         ctx.exhaustive = True
         ctx.sample({'tuple': cases[1]['t'], 'result': cases[1]['res']})
@@ -90,6 +105,16 @@ def kn_cases(rng, ctx, xs):
             e = {'op': 'kn', 'n': n, 'a': [{'op': 'var', 'i': 1}]}
             cases.append({'id': 'kn-%d-%.4g' % (n, x), 'ev': 'expr', 'mode': 'auto', 'expr': e, 'ops': [project_obs(xo)], 'res': res})
             ctx.nontrivial.add(('kn', n, float(x)))
+        # elementwise on a vector of observables, next to another term of the same vector: component j of kn(n, x) + x
+        xv = [_x_obs(rng, x) for x in xs[:3]]
+        try:
+            rv = pe.derived_observable(lambda v, **kw: pe.special.kn(n, v) + v, xv)
+            outs = [project_any(o) for o in rv]
+        except Exception as e:  # noqa: BLE001
+            outs = [project_exc(e)] * len(xv)
+        for j in range(len(xv)):
+            ej = {'op': 'add', 'a': [{'op': 'kn', 'n': n, 'a': [{'op': 'var', 'i': j + 1}]}, {'op': 'var', 'i': j + 1}]}
+            cases.append({'id': 'knv-%d-%d' % (n, j), 'ev': 'expr', 'mode': 'auto', 'expr': ej, 'ops': [project_obs(o) for o in xv], 'res': outs[j]})
     return cases
 
 
